@@ -407,7 +407,7 @@ Definition qdrop (q : qst) : option (list N) :=
     | Some a' =>
       let ids := sort_n (map CQueue.Model.eid (CQueue.Model.zero (qq q) ++ concat (CQueue.Model.buckets (qq q)))) in
       Some (10 :: enc_evs a' (map (fun p => (2, p)) ps) ++ [allocated_mem a'; N.of_nat (length (live a'))]
-               ++ (if hasdrop then N.of_nat (length ids) :: ids else [0]) ++ [11; 1])
+               ++ (if hasdrop then N.of_nat (length ids) :: ids else [0]) ++ [11; 1; 1; 1])
     end
   end.
 
